@@ -25,7 +25,18 @@ type zzGen struct {
 	order    []string
 	maxDepth int
 	loops    int
-	consts   bool // C03: use constant conditions / arithmetic as well
+	// C03: the constAt-th condition is a constant expression of this kind
+	constKind int
+	constAt   int
+	nconds    int
+	small     bool // fewer container lengths / condition kinds
+}
+
+func (g *zzGen) lens() int {
+	if g.small {
+		return 2
+	}
+	return 3
 }
 
 func newGen(sv *zzsv.T, maxDepth int) *zzGen {
@@ -51,7 +62,15 @@ func (g *zzGen) id() *zzExpr {
 
 // cond: a symbolic condition.
 func (g *zzGen) cond() *zzExpr {
-	switch g.sv.Choice("cond", 3) {
+	g.nconds++
+	if g.constKind > 0 && g.nconds-1 == g.constAt {
+		return g.constCond(g.constKind)
+	}
+	nc := 3
+	if g.small {
+		nc = 2
+	}
+	switch g.sv.Choice("cond", nc) {
 	case 0:
 		return g.intVar("c0") // truthy iff > 0
 	case 1:
@@ -88,7 +107,7 @@ func (g *zzGen) iterable() *zzExpr {
 	switch sv.Choice("iter", 4) {
 	case 0:
 		return g.need("arr", func() zv {
-			n := sv.Choice("arr.len", 3)
+			n := sv.Choice("arr.len", g.lens())
 			v := zv{t: tArray}
 			for k := 0; k < n; k++ {
 				v.arr = append(v.arr, zInt(sv.Int64("arr.el")))
@@ -97,11 +116,11 @@ func (g *zzGen) iterable() *zzExpr {
 		})
 	case 1:
 		return g.need("str", func() zv {
-			return zStr(zzASCII(sv, "str", sv.Choice("str.len", 3)))
+			return zStr(zzASCII(sv, "str", sv.Choice("str.len", g.lens())))
 		})
 	case 2:
 		return g.need("hsh", func() zv {
-			n := sv.Choice("hsh.len", 3)
+			n := sv.Choice("hsh.len", g.lens())
 			v := zv{t: tHash}
 			for k := 0; k < n; k++ {
 				v.hk = append(v.hk, zStr([]string{"a", "b"}[k]))
